@@ -3,6 +3,7 @@ mod cfgsuite;
 mod codec;
 mod gen_codec;
 mod gen;
+mod pairsuite;
 mod simsock;
 mod srvsuite;
 mod util;
@@ -35,6 +36,7 @@ fn run_cases(cases: &str, out: &str, dir: &str) {
             "recv" => wsuite::run_recv(&toks, &dir, &mut cap),
             "win" => winsuite::run_win(&toks, &dir),
             "srv" => srvsuite::run_srv(&toks, &dir),
+            "pair" => pairsuite::run_pair(&toks, &dir, &mut cap),
             "cfg" => cfgsuite::run_cfg(&toks),
             "cfgperm" => cfgsuite::run_cfgperm(&toks),
             "ccfg" => cfgsuite::run_ccfg(&toks),
